@@ -19,7 +19,7 @@ def streams(tier, rng, P, only=None, cases=None):
         for i in range(n):
             prog = mml.gen_program(rng, depth=rng.choice([1, 2, 3, 3, 4]), maxlen=rng.choice([4, 8, 12]))
             src = mml.pr(prog, sep=rng.choice([" ", " ", "\n"]))
-            cs.append(dict(req="run " + hx(src), src=src, show=src, sexp=mml.sexp(prog), key="p%d" % i))
+            cs.append(dict(req="run " + hx(src), src=src, show=src, sexp=mml.sexp(prog), key="p%d" % i, prog=prog))
         fixed = [
             ([('note', 'c', 0, False, None, None, None, None, None)], None),
             ([('v', 10), ('vrel', 1), ('note', 'c', 0, False, None, None, None, None, None)], None),
@@ -52,4 +52,8 @@ def streams(tier, rng, P, only=None, cases=None):
         notes = m[1].split("notes=")[1].split(" ")[0] if "notes=" in m[1] else ""
         return notes if notes.count(":") >= 18 else None
     s1 = Stream("core", cases if (cases and only == "core") else mk(), model, judge, nt, "core-language programs vs Spec.Core.sem")
+    def rebuild(case, prog):
+        src = mml.pr(prog)
+        return dict(req="run " + hx(src), src=src, show=src, sexp=mml.sexp(prog), key=case.get("key", "") + "-shrunk")
+    s1.ast_rebuild = rebuild
     return [s for s in (s1,) if only in (None, s.name)]
